@@ -64,6 +64,7 @@ from fractions import Fraction
 
 import common
 from common import err_kind
+from props import c08_tr
 
 ID = "C08"
 RULE = ("exhaustive (len x size x hop x route) grid on finished inputs, exhaustive (len x size x hop x ending) "
@@ -77,8 +78,18 @@ RULE = ("exhaustive (len x size x hop x route) grid on finished inputs, exhausti
         "source, grids of length-changing / failing caller operations; a case is non-trivial "
         "when the impl yields at least one block (or zero_pad has non-empty output); distinct = distinct JSON case")
 TRUSTED = [
-    "hand-written Lean model ALV/Model/C08.lean + C08Hist.lean of lazy_misc.blocks/zero_pad (modelled, not verified: "
-    "deque(maxlen), generator protocol: a source exception passes through the generator frame unchanged)",
+    "translator harness/props/c08_tr.py (ast of lazy_misc.blocks / zero_pad -> lean/ALV/Gen/C08Src.lean, rewritten on every run): "
+    "it trusts (a) the semantics of its Python subset as written in ALV/Model/C08Py.lean: `for el in seq` over an observed source "
+    "with at most one yield per turn (Py.forEv), builtin max(a, b) = b if b > a else a (Py.max2), `for _ in xrange(lo, hi)` = hi - lo "
+    "turns and a TypeError when lo is no longer a Python int (Py.forRange), the generator consumed to its end (Py.genRun), "
+    "`deque(maxlen=size).append` (dqPush), `is None`; (b) its vocabulary mapping: the deque local and the index local become the "
+    "fields res / idx of GState, `size` is read both as the deque bound (Nat) and as a number of the index type, int-ness of an "
+    "assigned index = int-ness of hop / of the old index, immutable locals (last_idx, reinit_idx) are inlined, names of locals are "
+    "dropped; anything outside the subset is a TranslationError = broken obligation.  The theorems src_*_is_model re-prove on every run "
+    "that the regenerated definitions are the hand-written model (gstep / gtail / grun / blocksCall / blocks / zeroPad / defaults)",
+    "hand-written Lean model ALV/Model/C08.lean + C08Hist.lean of lazy_misc.blocks/zero_pad (deque(maxlen), generator protocol: a "
+    "source exception passes through the generator frame unchanged: modelled, not verified; the loop bodies, constants, comparisons, "
+    "loop selection, tail clause and defaults are no longer trusted: they are regenerated from the source, see above)",
     "independence of a call from earlier / concurrent calls holds for the model by construction (pure functions of "
     "the arguments); the `conc` cases check it on the real code",
     "caller operations on the yielded deque: collections.deque(maxlen) semantics of append / appendleft / pop / popleft / "
@@ -117,10 +128,13 @@ MANIFEST = {
             "= the int hop up to a TypeError in place of a padded block that follows a complete one, hop <= 0, size 0, non-whole "
             "and non-finite float hops: the whole table blocksCall_eq_spec); tied "
             "to /repo by a differential run (impl vs model vs spec) on every check",
-    "note": "deque(maxlen), the generator protocol (a source exception passes through the frame unchanged) and Stream.blocks = "
+    "note": "the model of the two function bodies is regenerated from the source (translator); deque(maxlen), the generator protocol (a source exception passes through the frame unchanged) and Stream.blocks = "
             "blocks(iter(s)), Python's argument binding and deque operations are modelled, not verified; no PENDING statement "
             "is left; finite float hops whose index arithmetic rounds in binary64 (e.g. 1 + 2^-52, 0.1 on long inputs) are outside",
-    "technique": "Lean 4 machine-checked proof over an executable model + differential correspondence with observing / failing "
+    "technique": "Lean 4 machine-checked proof over an executable model + TRANSLATOR harness/props/c08_tr.py (the bodies of blocks / "
+                 "zero_pad, their constants, comparisons, statement order, loop selection, tail clause and defaults are read from the "
+                 "source with ast on every run into lean/ALV/Gen/C08Src.lean; theorems src_*_is_model prove the regenerated definitions "
+                 "equal to the model the property theorems are about, on all three index types) + differential correspondence with observing / failing "
                  "sources, caller-edit and live-source histories, Stream subclasses overriding __iter__, interleaved generators "
                  "and call histories run in pristine forked processes (state-between-calls is reported with the explicit history)",
 }
@@ -1689,6 +1703,8 @@ def compare(c, io, drv):
         if all(not _problems(dict(c, subs=[sb]), o, {"subs": [d]}) for sb, o, d in zip(c["subs"], alone, drv["subs"])):
             io["_alone_ok"] = True
         return out
+    if isinstance(io, dict) and io.get("err") == "OTHER:Timeout":
+        return out          # a run that does not end in time is reported as it is (no second, longer wait in a fresh process)
     io2 = _ZYG.run([c])[0]
     out2 = _problems(c, io2, drv)
     if out2:
@@ -2273,3 +2289,28 @@ def classify(c, io, drv):
     if c.get("observe"):
         return "zero_pad:trace:" + c.get("ending", "stop")
     return "zero_pad:content"
+
+
+# ----------------------------------------------------------------------------
+# translator (harness/props/c08_tr.py): the bodies of blocks / zero_pad -> lean/ALV/Gen/C08Src.lean
+# ----------------------------------------------------------------------------
+def regenerate(eng=None):
+    return c08_tr.regenerate(eng)
+
+
+def extra_checks(eng):
+    eng.extra["translated"] = {
+        "translator": "harness/props/c08_tr.py -> lean/ALV/Gen/C08Src.lean (vocabulary: lean/ALV/Model/C08Py.lean)",
+        "under_translator": c08_tr.TRANSLATED,
+        "theorems": ["src_loop1_step_is_model", "src_loop2_step_is_model", "src_step_is_bstep", "src_tail_is_model",
+                     "src_blocks_run_is_model", "src_blocksCall_is_model", "src_hop_default_is_model", "src_blocks_is_model",
+                     "src_blocks_eq_spec", "src_zero_pad_is_model", "src_signatures_are_model"],
+        "not_translated": c08_tr.NOT_TRANSLATED,
+    }
+    try:
+        ok, detail = c08_tr.selftest()
+    except c08_tr.TranslationError as e:
+        # the source of the repo under test is outside the subset: already reported by `regenerate`
+        ok, detail = False, "source under test does not translate: %s" % e
+    eng.extra["translated"]["selftest"] = detail
+    yield ("translator-selftest", ok, detail)
